@@ -22,7 +22,7 @@ TIER = {"tier": "quick"}
 # structural rules whose content is decided by the semantic engine (rules/psai_rules.py) whenever that engine could follow every path of
 # the 16 core entry points; they are consulted only as the second opinion when it could not
 SUPERSEDED = {"C01.R1", "C01.R2", "C01.R3", "C01.R4", "C01.R5", "C01.R8", "C01.R9", "C01.R10", "C02.R1", "C02.R2", "C02.R3", "C02.R4", "C02.R6", "C02.R7", "C02.R9",
-              "C04.R1", "C04.R2", "C04.R3", "C04.R4", "C05.R2", "C06.R1", "C07.R4", "C08.R1", "C08.R3", "C08.R4", "C08.R5", "C10.R3"}
+              "C04.R1", "C04.R2", "C04.R3", "C04.R4", "C05.R2", "C05.R6", "C06.R1", "C06.R2", "C08.R6", "C07.R2", "C07.R4", "C08.R1", "C08.R3", "C08.R4", "C08.R5", "C10.R3"}
 _sem = {}
 
 
